@@ -315,6 +315,8 @@ IMPLS: Dict[str, Callable[..., Any]] = {
     "half": lambda x: _k(x) // 2,
     "neg": lambda x: -_k(x),
     "ident": lambda x: x,
+    # tells values apart that compare equal across types (1, 1.0, True)
+    "typekey": lambda x: (type(x).__name__, x),
     "const": lambda x: 0,
     "failkey": _failkey,
     "keyitem": lambda x: Item(_k(x) // 2, ("key", _uid(x))),
@@ -696,6 +698,20 @@ def run_sync_side(spec: dict, fault: Optional[Fault] = None, steps: Optional[int
                         side.objs.append(item)
                     CTX.ev("yield", canon(item))
                 CTX.ev(*side.term)
+                if spec["tool"] == "iter_sentinel" and side.term == ("stop",):
+                    # an iterator that has ended stays ended: asked again (a consumer polling past the end, a tool
+                    # re-polling its exhausted source) it says so again - and does not call the callable any more
+                    for _ in range(2):
+                        try:
+                            again = next(it)
+                        except StopIteration:
+                            CTX.ev("asked-after-the-end", "stop")
+                        except BaseException as exc:  # noqa: BLE001
+                            CTX.ev("asked-after-the-end", "raised", type(exc).__name__)
+                            side.out.append(("after-the-end", "raised", type(exc).__name__))
+                        else:
+                            CTX.ev("asked-after-the-end", "item")
+                            side.out.append(("after-the-end", canon(again)))
     finally:
         side.log = CTX.log
         side.iter_asked = dict(CTX.iter_asked)
@@ -837,6 +853,18 @@ def run_async_side(spec: dict, flavours: Optional[List[str]] = None, fn_flavours
                 CTX.ev("yield", canon(item))
                 del item
             CTX.ev(*side.term)
+            if spec["tool"] == "iter_sentinel" and side.term == ("stop",):
+                for _ in range(2):
+                    try:
+                        again = await it.__anext__()
+                    except StopAsyncIteration:
+                        CTX.ev("asked-after-the-end", "stop")
+                    except BaseException as exc:  # noqa: BLE001
+                        CTX.ev("asked-after-the-end", "raised", type(exc).__name__)
+                        side.out.append(("after-the-end", "raised", type(exc).__name__))
+                    else:
+                        CTX.ev("asked-after-the-end", "item")
+                        side.out.append(("after-the-end", canon(again)))
             if athrow is not None and side.term == ("open",) and hasattr(it, "athrow"):
                 # the consumer throws into the library iterator at this position
                 try:
